@@ -175,6 +175,12 @@ func (f fetcher) FetchSourcePackage(ctx context.Context, sourceType string, u *u
 	}
 	r.tmpDirs[filepath.Base(targetDir)] = true
 	c := r.call("fetch", key)
+	if err := ctx.Err(); err != nil && c.Fault == "" {
+		// a well-behaved fetcher responds to cancellation
+		c.Result = "ctx-cancelled"
+		c.Fault = "ctx"
+		return resp, err
+	}
 	if pi < 0 {
 		c.Result = "unknown"
 		return resp, fmt.Errorf("no such package %s", key)
@@ -250,6 +256,14 @@ func (f fetcher) FetchSourcePackage(ctx context.Context, sourceType string, u *u
 			err = os.Symlink(tgt, full)
 		case "fifo":
 			err = syscall.Mkfifo(full, 0o644)
+		case "sock":
+			var fd int
+			if fd, err = syscall.Socket(syscall.AF_UNIX, syscall.SOCK_STREAM, 0); err == nil {
+				err = syscall.Bind(fd, &syscall.SockaddrUnix{Name: full})
+				syscall.Close(fd)
+			}
+		case "dev":
+			err = syscall.Mknod(full, syscall.S_IFCHR|0o644, 1<<8|3)
 		}
 		if err != nil {
 			c.Result = "harness-write-error: " + err.Error()
@@ -259,6 +273,12 @@ func (f fetcher) FetchSourcePackage(ctx context.Context, sourceType string, u *u
 	if c.Fault == "torn" {
 		c.Result = "torn"
 		return resp, errPeer
+	}
+	if c.Fault == "cancel-after" {
+		// the caller cancels right after this download completed: nothing is in flight to report it
+		if cf := r.cancels[c.Task]; cf != nil {
+			cf()
+		}
 	}
 	if p.Commit != "" {
 		resp.PackageMeta = sourcebundle.PackageMetaWithGitMetadata(p.Commit, p.Msg)
